@@ -710,13 +710,15 @@ def module_class_lift_transform_cached(
     fn = getattr(module_class, fn_name)
     trafo_args, trafo_kwargs = fn_trafo_args
     trafo_fn = None
+    # module state left behind by a traced call, see
+    # decorator_lift_transform_cached
+    traced_states: dict[_HashableProxy, Any] = {}
 
     # we need to create a scope-function from our class for the given method
     @functools.wraps(fn)
     def wrapped_fn(self: Module, *args, **kwargs):
       assert self.scope is not None
       nonlocal trafo_fn
-      state = self._state.export()
 
       # increment rng counters for all rngs in scope
       with fork_rngs(self):
@@ -732,9 +734,10 @@ def module_class_lift_transform_cached(
           # we reference module_class, not self.__class__ to avoid infinite loop
           cloned = module_class(parent=None, **attrs)
           cloned, args, kwargs = set_module_scopes(cloned, args, kwargs, scopes)
-          object.__setattr__(cloned, '_state', state.export())
+          object.__setattr__(cloned, '_state', self._state.export())
           res = fn(cloned, *args, **kwargs)
           self._state.reimport(cloned._state)
+          traced_states[module_hash] = cloned._state.export()
           _test_transformed_return_values(res, fn_name)
           return res
 
@@ -746,6 +749,8 @@ def module_class_lift_transform_cached(
         hash_key = _HashableProxy.from_module(self)
 
         ret = trafo_fn(module_scopes, hash_key, *args, **kwargs)
+        if hash_key in traced_states:
+          self._state.reimport(traced_states[hash_key])
         return ret
 
     return wrapped_fn
